@@ -193,7 +193,10 @@ type outcome struct {
 }
 
 // runSlip evaluates the program with the real interpreter.
-func runSlip(forms []*ref.V, compile, typed bool) (o outcome) {
+func runSlip(forms []*ref.V, compile, typed bool, limit int) (o outcome) {
+	if limit <= 0 || slipSteps < limit {
+		limit = slipSteps
+	}
 	runCounter++
 	suffix := fmt.Sprintf("-r7q%d", runCounter)
 	rename := func(s string) string {
@@ -217,7 +220,7 @@ func runSlip(forms []*ref.V, compile, typed bool) (o outcome) {
 	stopped := false
 	scope.InterruptCheck = func() {
 		steps++
-		if slipSteps < steps && !stopped {
+		if limit < steps && !stopped {
 			// fires once: slip turns the panic into a condition (which
 			// evaluates forms itself) and unwinds
 			stopped = true
@@ -249,7 +252,7 @@ func runSlip(forms []*ref.V, compile, typed bool) (o outcome) {
 	o.trace = slipTrace
 	slipTrace = nil
 	if stopped {
-		o.err = &sl.Err{Class: "no-termination", Msg: fmt.Sprintf("more than %d evaluation steps", slipSteps)}
+		o.err = &sl.Err{Class: "no-termination", Msg: fmt.Sprintf("more than %d evaluation steps (the reference evaluator needs %d)", limit, (limit-2000)/10)}
 	}
 	if o.err != nil {
 		o.err.Msg = strings.ReplaceAll(o.err.Msg, suffix, "")
@@ -284,6 +287,7 @@ func runSlip(forms []*ref.V, compile, typed bool) (o outcome) {
 // ---------------------------------------------------------------- reference
 
 type expected struct {
+	steps int
 	vals  []string
 	trace []ref.TraceEntry
 	notes []string
@@ -294,6 +298,7 @@ func runRef(forms []*ref.V, typed bool) (e expected) {
 	ev := ref.New(refSteps)
 	vals, err := ev.Run(forms)
 	e.err = err
+	e.steps = ev.Steps
 	ref.StaticNotes(forms, ev.Notes)
 	e.notes = ev.NoteList()
 	e.trace = ev.Trace
@@ -317,6 +322,10 @@ func runRef(forms []*ref.V, typed bool) (e expected) {
 	}
 	return
 }
+
+// budgetFor: the interpreter gets ten times the evaluation steps the
+// reference evaluator needed (it counts fewer kinds of step), plus slack.
+func budgetFor(e expected) int { return 10*e.steps + 2000 }
 
 // compare returns "" when the observation equals the expectation, else the
 // kind of divergence and a description.
@@ -878,7 +887,7 @@ func exec(x *fw.Ctx, c Case) {
 	if c.Kind != "quote" && c.Kind != "probe" && (len(exp.trace) < 3 || nk < 2) {
 		x.Trivial()
 	}
-	o := runSlip(forms, c.Compile, typed)
+	o := runSlip(forms, c.Compile, typed, budgetFor(exp))
 	obs["src"] = o.src
 	obs["expected"] = strings.Join(exp.vals, " ; ")
 	obs["effects"] = len(exp.trace)
@@ -920,12 +929,12 @@ func exec(x *fw.Ctx, c Case) {
 			// that class (it may not drift to an unrelated divergence)
 			return false
 		}
-		k, _ := compare(e, runSlip(cand, c.Compile, typed))
+		k, _ := compare(e, runSlip(cand, c.Compile, typed, budgetFor(e)))
 		return k != ""
 	}
 	small := shrink(cloneForms(forms), still, 2500)
 	se := runRef(small, typed)
-	so := runSlip(small, c.Compile, typed)
+	so := runSlip(small, c.Compile, typed, budgetFor(se))
 	skind, sdetail := compare(se, so)
 	if skind == "" { // cannot happen (shrink only accepts diverging programs)
 		small, se, skind, sdetail = forms, exp, kind, detail
@@ -974,15 +983,13 @@ type brokenInfo struct {
 // an execution that touches them. The clean stream does not generate them;
 // the dirty stream (a minority of cases) enables one of them per case.
 var knownBroken = map[string]brokenInfo{
-	"do-test-atom":                   {prio: 1, hang: true},
-	"do*-test-atom":                  {prio: 1, hang: true},
+	"do-test-atom-tight":             {prio: 1, hang: true},
+	"do*-test-atom-tight":            {prio: 1, hang: true},
+	"do-test-atom":                   {prio: 2, probe: "(do ((i 0 (1+ i)) (done nil (> i 1))) (done i) (vtr 1 i))"},
+	"do*-test-atom":                  {prio: 2, probe: "(do* ((i 0 (1+ i)) (done nil (> i 1))) (done i) (vtr 1 i))"},
 	"values-0":                       {prio: 2, probe: "(list 1 (values))"},
-	"mapcar-empty-list":              {prio: 4, probe: "(mapcar #'1+ nil)"},
-	"cond-test-only":                 {prio: 5, probe: "(cond ((vtr 1 3)))"},
 	"mv-through:progn":               {prio: 6, probe: "(multiple-value-list (progn (vtr 1) (values 1 2)))"},
 	"mv-into:setq":                   {prio: 7, probe: "(let ((z 0)) (multiple-value-list (setq z (values 1 2))))"},
-	"do-nostep":                      {prio: 8, probe: "(do ((i 0 (1+ i)) (k 5)) ((>= i 2) k) (vtr 1 k))"},
-	"do*-nostep":                     {prio: 8, probe: "(do* ((i 0 (1+ i)) (k 5)) ((>= i 2) k) (vtr 1 k))"},
 	"dynleak":                        {prio: 9, probe: "(let ((x 1)) (let ((f (lambda (a) (+ x a)))) (let ((x 20)) (funcall f 0))))"},
 	"mv-into:test":                   {prio: 7, probe: "(if (values nil) (vtr 1 1) (vtr 2 2))"},
 	"mv-into:and":                    {prio: 7, probe: "(and (values nil) (vtr 1 13))"},
